@@ -9,6 +9,9 @@
  L3 QUEUE-ORDER            the group-commit queue is FIFO end to end: submit pushes at the back, take_pending drains from the front,
                            the flush walks the batch in order (no rev / sort / pop_back / swap_remove).
  L4 FLUSH-UNDER-WAL-LOCK   the group flush appends the whole batch under one WAL mutex guard.
+ L5 PAYLOAD-COMPLETE       no lossy iterator adaptor (filter / dedup / take / ...) between a queued payload and the append.
+ L5b EVERY-ITEM-FORWARDED  every iteration of the group-flush loops forwards its commit / frame: no path from the "next item" arm
+                           back to the loop header avoids the forwarding call (no conditional skip of an "already seen" page).
 Actual interleavings are NOT explored; L1/L2 hits are demonstrated with a forced schedule / a crash image (see findings/).
 """
 from model import CheckError, operand_place
@@ -122,6 +125,42 @@ def run(ctx):
                "the payload passes through %s before it is appended: frames of a committed transaction are dropped from the log (a later commit's "
                "image of a page is lost when an earlier one in the batch is kept)" % (lossy[0].name.rsplit("::", 1)[-1] if lossy else "no append"),
                (lossy[0] if lossy else f).loc() if lossy else f.loc())
+    # L5b EVERY-ITEM-FORWARDED: in the loops of the group flush that hand commits / frames on (to the WAL, to write_payload_to_wal, or
+    # into the buffer that is appended), the forwarding call runs on every iteration: no path from the loop's "next item" arm back to
+    # the loop header avoids it.  A conditional skip (a page "already seen" in this batch) drops a committed transaction's image.
+    from paths import exhausted_edges
+    n5b = 0
+    for fid in (T + "execute_group_wal_flush", T + "write_payload_to_wal"):
+        f0 = m.fn(fid)
+        for f in [f0] + list(common.all_closures(m, f0)):
+            fwd_bbs = {c.bb for c in f.calls if is_append(c) or c.name.endswith("Vec::<T, A>::push") or c.name.endswith("Vec::<T>::push")
+                       or c.name.rsplit("::", 1)[-1] in ("extend", "extend_from_slice", "push_back")}
+            loops = dict((h, set(b)) for h, b in f.loops())
+            for (sw, exit_t), h in exhausted_edges(f).items():
+                body = loops.get(h, set())
+                inside = fwd_bbs & body
+                if not inside:
+                    continue
+                n5b += 1
+                some = [t for t in f.succ(sw, unwind=False) if t != exit_t and t in body]
+                # blocks reachable from the Some arm, inside the body, without passing a forwarding block
+                seen_, st = set(), [b for b in some if b not in inside]
+                skip = False
+                while st:
+                    b = st.pop()
+                    if b in seen_:
+                        continue
+                    seen_.add(b)
+                    for nx in f.succ(b, unwind=False):
+                        if nx == h:
+                            skip = True
+                        elif nx in body and nx not in inside:
+                            st.append(nx)
+                ctx.ob("L5b.EVERY-ITEM-FORWARDED", "%s#%d" % (f.id.rsplit("::", 1)[-1], n5b), not skip, "the loop forwards every item" if not skip else
+                       "an iteration of the flush loop can return to the loop header without forwarding its item (a frame or commit is skipped "
+                       "conditionally): a later commit's image of a page is dropped from the log while its COMMIT reports success",
+                       "%s:%s" % (f.file, f.blocks[h].get("l")))
+    ctx.floor("L5b.forwarding_loops", n5b, 1)
     # L4
     f = m.fn(T + "execute_group_wal_flush")
     apps = [c for c in f.calls if is_append(c)]
